@@ -127,6 +127,7 @@ def handle (st : St) (line : String) : St × Option String :=
     match head.head? with
     | some "CM" => (st, some (opCompiles st head path))
     | some "GT" | some "G" => (st, some (opGet st head path out))
+    | some "GR" => (st, some (opReflectGet st head path out))
     | some "CP" => (st, some (opCopy st head out))
     | some "CT" => (st, some (opCopyTo st head out))
     | some "RS" => (st, some (opReset st head out))
